@@ -203,12 +203,12 @@ def draw_selection(rng, m, elem):
     if kind == "circle":
         q = ref.unit(P[int(rng.integers(0, n_el))] + 0.2 * rng.normal(size=3))
         lon, lat = ref.xyz_to_lonlat(q)
-        return {"kind": kind, "element": el, "center": [float(lon), float(lat)], "r": float(rng.uniform(2, 60))}
+        return {"kind": kind, "element": el, "center": [float(lon), float(lat)], "r": float(rng.uniform(2, 60)), "center_as_array": bool(rng.random() < 0.5)}
     if kind == "knn":
         q = ref.unit(rng.normal(size=3)) if rng.random() < 0.5 else ref.unit(P[int(rng.integers(0, n_el))] + 0.05 * rng.normal(size=3))
         lon, lat = ref.xyz_to_lonlat(q)
         k = int([1, 2, max(1, n_el // 3), n_el][int(rng.integers(0, 4))])
-        return {"kind": kind, "element": el, "center": [float(lon), float(lat)], "k": min(k, n_el)}
+        return {"kind": kind, "element": el, "center": [float(lon), float(lat)], "k": min(k, n_el), "center_as_array": bool(rng.random() < 0.5)}
     # constant latitude
     nlat = elem["node"][1][:, 1]
     r = rng.random()
@@ -268,6 +268,18 @@ def expected(sel, m, en, elem):
     raise ValueError(sel['kind'])
 
 
+_CENTRE_ARRAYS = {}
+
+
+def centre_of(sel):
+    """The centre of a circle / k-nearest selection as ONE float ndarray per selection, handed to every call that uses this selection
+    (a script keeps its point of interest in an array and reuses it): the library must not write into it."""
+    key = (tuple(sel["center"]), sel["kind"], sel.get("element"))
+    if key not in _CENTRE_ARRAYS:
+        _CENTRE_ARRAYS[key] = np.array(sel["center"], dtype=float)
+    return _CENTRE_ARRAYS[key]
+
+
 def apply_selection(obj, sel, is_data=False):
     """obj: Grid or UxDataArray."""
     k = sel["kind"]
@@ -284,9 +296,9 @@ def apply_selection(obj, sel, is_data=False):
     if k in ("box", "box_am"):
         return obj.subset.bounding_box(sel["lon_bounds"], sel["lat_bounds"], element=ELEMENT_ARG[sel["element"]])
     if k == "circle":
-        return obj.subset.bounding_circle(sel["center"], sel["r"], element=ELEMENT_ARG[sel["element"]])
+        return obj.subset.bounding_circle(centre_of(sel) if sel.get("center_as_array") else tuple(sel["center"]), sel["r"], element=ELEMENT_ARG[sel["element"]])
     if k == "knn":
-        return obj.subset.nearest_neighbor(sel["center"], sel["k"], element=ELEMENT_ARG[sel["element"]])
+        return obj.subset.nearest_neighbor(centre_of(sel) if sel.get("center_as_array") else tuple(sel["center"]), sel["k"], element=ELEMENT_ARG[sel["element"]])
     return obj.cross_section.constant_latitude(sel["lat"])
 
 
@@ -452,7 +464,11 @@ def run_case(ctx, case):
                              "lat_bounds": [max(-90.0, la - 7.0), min(90.0, la + 7.0)], "targeted": "element_on_antimeridian"})
             ctx.observe("targeted_box_with_element_on_antimeridian")
     nsel = case["nsel"]
+    _CENTRE_ARRAYS.clear()
     for s_i in range(nsel + len(targeted)):
+        # (the centre arrays handed out so far must still hold what they were given)
+        for key_, arr_ in _CENTRE_ARRAYS.items():
+            ctx.check("selection_arguments_unchanged", bool(np.array_equal(arr_, np.array(key_[0], dtype=float))), {"sel": key_[1], "element": key_[2]}, {"given": list(key_[0]), "now": arr_.tolist(), "mesh": case["mesh"]})
         sel = draw_selection(rng, m, elem) if s_i < nsel else targeted[s_i - nsel]
         must, may = expected(sel, m, en, elem)
         sig = {"sel": sel["kind"], "element": sel["element"], "source": src_kind, "form": sel.get("form", "")}
